@@ -119,7 +119,8 @@ PROPS = {
         assumptions=["the filter is a pure predicate (FnMut state not modelled)"],
     ),
     'C11': dict(
-        streams=[dict(name='registry', quick=800, thorough=8000, filter=only('C11:'))],
+        streams=[dict(name='registry', quick=800, thorough=8000, filter=only('C11:')),
+                 dict(name='stdall', pg=True, mode='stdall', gen='gen_std.py', quick=120, thorough=900, filter=only('C11:'))],
         rule=REGISTRY_RULE + " C11 oracle: every Registry::types() snapshot contains the previous one unchanged; the same history replayed gives byte-identical encode(); the distinct roots registered one by one in history order, in 3 (thorough 5) random permutations and reversed give registries of the same size that are rooted-isomorphic (Spec.iso from the returned ids) to the original.",
         trusted_base=COMMON_TB,
         assumptions=["TypeId ordering plays no role (BTreeMap<TypeId,_> is only looked up, never iterated)"],
